@@ -195,11 +195,13 @@ def _ref(e, Q):
     if "op" not in e:
         if len(Q) == 0:
             return _base_sampler(e).sample_points()
-        out = None
-        for i in range(len(Q)):
-            part = _base_sampler(e).sample_points(Q[i, ])
-            out = part if out is None else (out | part)
-        return out
+        parts = [_base_sampler(e).sample_points(Q[i, ]) for i in range(len(Q))]
+        parts = [p_ for p_ in parts if not p_.isempty]
+        if not parts:
+            return Points.empty()
+        # one concatenation (row by row `|` is quadratic in the number of rows)
+        assert all(p_.space == parts[0].space for p_ in parts)
+        return Points(torch.cat([p_._t for p_ in parts], dim=0), parts[0].space)
     if e["op"] == "static":
         return _ref(e["a"], Q)
     if e["op"] == "mul":
@@ -265,6 +267,11 @@ def _run_algebra(spec, ctx):
     if l0 != exp_len:
         ctx.violation("len", feat + "|before-call", f"len(sampler)={l0}, a parameter-free call returns {exp_len} rows")
     rnd = _has_random(e)
+    if exp_len * max(len(params), 1) > 3000:
+        # the reference makes one library call per (base sampler, parameter row) with a fresh sampler object: bounded
+        # by generated size (minutes per case otherwise); the length facts above were still checked
+        ctx.event("algebra-reference-skipped:more-than-3000-rows")
+        return {"nontrivial": False, "classes": ["algebra", "alg-too-large"], "summary": {"rows": int(exp_len * max(len(params), 1))}}
     torch.manual_seed(spec["rng"])
     # the reference makes one library call per (base sampler, parameter row): give the block a
     # budget proportional to that number instead of the single-call budget
